@@ -1203,6 +1203,11 @@ class SQLModel:
             temp_id_source = [0]
         if using is None:
             using = OrderedSet(project_node.column_names)
+        if (len(project_node.group_by) < 1) and (len(project_node.ops) > 0):
+            if not any(k in using for k in project_node.ops.keys()):
+                # an ungrouped project returns exactly one row, whether or not its results are used:
+                # keep one aggregate so the query still aggregates
+                using = OrderedSet(list(using) + [list(project_node.ops.keys())[0]])
         subops = {k: op for (k, op) in project_node.ops.items() if k in using}
         subusing = project_node.columns_used_from_sources(using=using)[0]
         terms = {ci: self.expr_to_sql(oi) for (ci, oi) in subops.items()}
@@ -2059,6 +2064,9 @@ class SQLModel:
             if columns is None:
                 columns = [k for k in terms.keys()]
             terms_strs = [self.enc_term_(k, terms=terms) for k in columns]
+            if len(terms_strs) < 1:
+                # nothing is requested from this step: keep its own terms (an aggregation must stay one)
+                terms_strs = [self.enc_term_(k, terms=terms) for k in terms.keys()]
             if len(terms_strs) < 1:
                 terms_strs = ["*"]
         sql_start = "SELECT"
